@@ -290,6 +290,12 @@ func runC09(ctx *Ctx) error {
 			}
 			s.Files = append(s.Files, c09File{name, data})
 		}
+		if n := len(s.Files); n > 0 && r.Intn(6) == 0 {
+			// a second attachment with the same name and size as the last one and other content:
+			// two identical File header lines
+			last := s.Files[n-1]
+			s.Files = append(s.Files, c09File{last.Name, r.Bytes(len(last.Data))})
+		}
 		if r.Intn(3) == 0 {
 			s.Extra = map[string]string{"X-" + r.StringFrom("AbcdefgH", 1+r.Intn(6)): r.StringFrom(alnum+" -_", 1+r.Intn(20))}
 			for k, v := range s.Extra {
